@@ -646,9 +646,8 @@ fn main() {
     let forged_unclaimed_detected = Counter::new();
     let samples = Samples::new(6);
     let per_ms_order: std::sync::Mutex<BTreeMap<String, u64>> = std::sync::Mutex::new(BTreeMap::new());
-    let runs: Vec<&Case> = (0..repeats).flat_map(|_| cases.iter()).collect();
-    runs.par_iter().for_each(|case| {
-        let case: &Case = case;
+    let runs: Vec<(usize, &Case)> = (0..repeats).flat_map(|r| cases.iter().map(move |c| (r, c))).collect();
+    runs.par_iter().for_each(|&(rep, case)| {
         evals.inc();
         match run_case(case) {
             Ok(o) => {
@@ -666,7 +665,7 @@ fn main() {
                 *per_ms_order.lock().unwrap().entry(key).or_insert(0) += 1;
                 if o.must_detect {
                     claimed.inc();
-                    if o.stat_identical {
+                    if o.stat_identical && rep == 0 {
                         only_own_mtime.inc();
                         samples.offer(|| case.to_json());
                     }
@@ -699,6 +698,8 @@ fn main() {
     }
 
     let mut extra: BTreeMap<String, Value> = BTreeMap::new();
+    extra.insert("distinct_cases".into(), json!(cases.len()));
+    extra.insert("repeats_of_the_whole_space".into(), json!(repeats));
     extra.insert("granularities".into(), json!(grans.iter().map(|g| g.name()).collect::<Vec<_>>()));
     extra.insert("claimed_cases_all_detected".into(), json!(claimed.get()));
     extra.insert("cases_where_only_the_state_file_mtime_reveals_the_edit".into(), json!(only_own_mtime.get()));
